@@ -78,6 +78,22 @@ package lintcmd
 //@   at return #4 assert [fail]    numErrors > 0 && !istype(f, *sarifFormatter)
 //@   at return #5 assert [success] numErrors == 0
 
+// ---- "the problems printed are exactly the problems of all checks restricted to that set":
+// success keeps, in order, exactly the diagnostics whose category is an allowed check ----
+//@ ghost nAllowed(ds []runner.Diagnostic, allowed map[caseFoldedString]bool, n int) int = n <= 0 ? 0 : nAllowed(ds, allowed, n-1) + (get(allowed, makeCaseFoldedString(ds[n-1].Category)) ? 1 : 0)
+//@ lemma nAllowed_mono(ds []runner.Diagnostic, allowed map[caseFoldedString]bool, a int, b int)
+//@   requires 0 <= a && a < b
+//@   ensures  nAllowed(ds, allowed, a) + (get(allowed, makeCaseFoldedString(ds[a].Category)) ? 1 : 0) <= nAllowed(ds, allowed, b) && 0 <= nAllowed(ds, allowed, a)
+//@   induct   b
+//@   trigger  nAllowed(ds, allowed, a), nAllowed(ds, allowed, b)
+//@ func success
+//@   uses     nAllowed_mono
+//@   ensures  [count] len(result) == nAllowed(res.Diagnostics, allowedAnalyzers, len(res.Diagnostics))
+//@   ensures  [elem]  forall j int :: {res.Diagnostics[j]} 0 <= j && j < len(res.Diagnostics) && get(allowedAnalyzers, makeCaseFoldedString(res.Diagnostics[j].Category)) ==> result[nAllowed(res.Diagnostics, allowedAnalyzers, j)].Diagnostic == res.Diagnostics[j] && result[nAllowed(res.Diagnostics, allowedAnalyzers, j)].Severity == 0 && result[nAllowed(res.Diagnostics, allowedAnalyzers, j)].MergeIf == 0 && result[nAllowed(res.Diagnostics, allowedAnalyzers, j)].BuildName == ""
+//@   loop 1   index n
+//@   loop 1   invariant [count] len(diagnostics) == nAllowed(diags, allowedAnalyzers, n)
+//@   loop 1   invariant [elem]  forall j int :: {diags[j]} 0 <= j && j < n && get(allowedAnalyzers, makeCaseFoldedString(diags[j].Category)) ==> diagnostics[nAllowed(diags, allowedAnalyzers, j)].Diagnostic == diags[j] && diagnostics[nAllowed(diags, allowedAnalyzers, j)].Severity == 0 && diagnostics[nAllowed(diags, allowedAnalyzers, j)].MergeIf == 0 && diagnostics[nAllowed(diags, allowedAnalyzers, j)].BuildName == ""
+
 //@ prop C12
 
 //@ func (diagnostic).descriptor
@@ -209,12 +225,14 @@ package lintcmd
 //@ func parseDirectives
 //@   uses     nIg_mono, nBad_mono
 //@   ensures  [count] len(result0) == nIg(dirs, len(dirs)) && len(result1) == nBad(dirs, len(dirs))
+//@   ensures  [nonnil] forall k int :: {result0[k]} 0 <= k && k < len(result0) ==> (istype(result0[k], *lineIgnore) ==> astype(result0[k], *lineIgnore) != nil)
 //@   ensures  [line]  forall j int :: {dirs[j]} 0 <= j && j < len(dirs) && wfDir(dirs[j]) && dirs[j].Command == "ignore" ==> istype(result0[nIg(dirs, j)], *lineIgnore) && astype(result0[nIg(dirs, j)], *lineIgnore).File == dirs[j].NodePosition.Filename && astype(result0[nIg(dirs, j)], *lineIgnore).Line == dirs[j].NodePosition.Line && astype(result0[nIg(dirs, j)], *lineIgnore).Checks == makeCaseFoldedStrings(strings.Split(dirs[j].Arguments[0], ",")) && astype(result0[nIg(dirs, j)], *lineIgnore).Pos == dirs[j].DirectivePosition && !astype(result0[nIg(dirs, j)], *lineIgnore).Matched
 //@   ensures  [file]  forall j int :: {dirs[j]} 0 <= j && j < len(dirs) && wfDir(dirs[j]) && dirs[j].Command == "file-ignore" ==> istype(result0[nIg(dirs, j)], *fileIgnore) && astype(result0[nIg(dirs, j)], *fileIgnore).File == dirs[j].NodePosition.Filename && astype(result0[nIg(dirs, j)], *fileIgnore).Checks == makeCaseFoldedStrings(strings.Split(dirs[j].Arguments[0], ","))
 //@   ensures  [bad]   forall j int :: {dirs[j]} 0 <= j && j < len(dirs) && badDir(dirs[j]) ==> result1[nBad(dirs, j)].Position == dirs[j].NodePosition && result1[nBad(dirs, j)].Category == "compile" && result1[nBad(dirs, j)].Severity == severityError
 //@   loop 1   index n
 //@   loop 1   modifies fresh
 //@   loop 1   invariant [count] len(ignores) == nIg(dirs, n) && len(diagnostics) == nBad(dirs, n)
+//@   loop 1   invariant [nonnil] forall k int :: {ignores[k]} 0 <= k && k < len(ignores) ==> (istype(ignores[k], *lineIgnore) ==> astype(ignores[k], *lineIgnore) != nil)
 //@   loop 1   invariant [alloc] forall j int :: {dirs[j]} 0 <= j && j < n && wfDir(dirs[j]) ==> (dirs[j].Command == "ignore" ==> istype(ignores[nIg(dirs, j)], *lineIgnore) && allocated(astype(ignores[nIg(dirs, j)], *lineIgnore))) && (dirs[j].Command == "file-ignore" ==> istype(ignores[nIg(dirs, j)], *fileIgnore) && allocated(astype(ignores[nIg(dirs, j)], *fileIgnore)))
 //@   loop 1   invariant [line]  forall j int :: {dirs[j]} 0 <= j && j < n && wfDir(dirs[j]) && dirs[j].Command == "ignore" ==> astype(ignores[nIg(dirs, j)], *lineIgnore).File == dirs[j].NodePosition.Filename && astype(ignores[nIg(dirs, j)], *lineIgnore).Line == dirs[j].NodePosition.Line && astype(ignores[nIg(dirs, j)], *lineIgnore).Checks == makeCaseFoldedStrings(strings.Split(dirs[j].Arguments[0], ",")) && astype(ignores[nIg(dirs, j)], *lineIgnore).Pos == dirs[j].DirectivePosition && !astype(ignores[nIg(dirs, j)], *lineIgnore).Matched
 //@   loop 1   invariant [file]  forall j int :: {dirs[j]} 0 <= j && j < n && wfDir(dirs[j]) && dirs[j].Command == "file-ignore" ==> astype(ignores[nIg(dirs, j)], *fileIgnore).File == dirs[j].NodePosition.Filename && astype(ignores[nIg(dirs, j)], *fileIgnore).Checks == makeCaseFoldedStrings(strings.Split(dirs[j].Arguments[0], ","))
@@ -231,6 +249,34 @@ package lintcmd
 //@   ensures  worthReporting(checks, allowed, m)
 //@   induct   m
 //@   trigger  checks[k], worthReporting(checks, allowed, m)
+// ---- the application loop of filterIgnored: a problem ends up ignored iff it already was or
+// some ignore matches it; nothing else about it changes, none is dropped or reordered ----
+// igm(ig, d): what ig.match answers for a problem with the reported data d. The two
+// implementations are proved above against the property's wording; through the interface their
+// answer is this function of the ignore and the problem (assumption: File, Line and Checks of an
+// ignore do not change while the ignores are applied; only lineIgnore.Matched does).
+//@ ghost igm(ig ignore, d runner.Diagnostic) bool
+//@ extern (honnef.co/go/tools/lintcmd.ignore).match(diag diagnostic) bool
+//@   modifies lineIgnore.Matched
+//@   ensures  result == igm(recv, diag.Diagnostic)
+//@ ghost anyHit(igs []ignore, n int, d runner.Diagnostic) bool = n > 0 && (igm(igs[n-1], d) || anyHit(igs, n-1, d))
+//@ func filterIgnored
+//@   nosafe   all
+//@   modifies heap
+//@   writes   diagnostics
+//@   loop 1   index k
+//@   loop 1   invariant [len]  len(diagnostics) == len(old(diagnostics))
+//@   loop 1   invariant [same] forall i int :: {diagnostics[i]} 0 <= i && i < len(diagnostics) ==> diagnostics[i].Diagnostic == old(diagnostics)[i].Diagnostic && diagnostics[i].MergeIf == old(diagnostics)[i].MergeIf && diagnostics[i].BuildName == old(diagnostics)[i].BuildName
+//@   loop 1   invariant [ign]  forall i int :: {diagnostics[i]} 0 <= i && i < len(diagnostics) ==> diagnostics[i].Severity == ((old(diagnostics)[i].Severity == severityIgnored || anyHit(ignores, k, old(diagnostics)[i].Diagnostic)) ? severityIgnored : old(diagnostics)[i].Severity)
+//@   loop 2   index m
+//@   loop 2   invariant [len]  len(diagnostics) == len(old(diagnostics))
+//@   loop 2   invariant [same] forall i int :: {diagnostics[i]} 0 <= i && i < len(diagnostics) ==> diagnostics[i].Diagnostic == old(diagnostics)[i].Diagnostic && diagnostics[i].MergeIf == old(diagnostics)[i].MergeIf && diagnostics[i].BuildName == old(diagnostics)[i].BuildName
+//@   loop 2   invariant [ign]  forall i int :: {diagnostics[i]} 0 <= i && i < len(diagnostics) ==> diagnostics[i].Severity == ((old(diagnostics)[i].Severity == severityIgnored || anyHit(ignores, (i < m ? k + 1 : k), old(diagnostics)[i].Diagnostic)) ? severityIgnored : old(diagnostics)[i].Severity)
+//@   ensures  [len]  result1 == nil && len(result0) >= len(old(diagnostics))
+//@   ensures  [same] forall i int :: {result0[i]} 0 <= i && i < len(old(diagnostics)) ==> result0[i].Diagnostic == old(diagnostics)[i].Diagnostic && result0[i].MergeIf == old(diagnostics)[i].MergeIf && result0[i].BuildName == old(diagnostics)[i].BuildName
+//@   ensures  [kept] forall i int :: {result0[i]} 0 <= i && i < len(old(diagnostics)) && result0[i].Severity != severityIgnored ==> result0[i].Severity == old(diagnostics)[i].Severity
+//@   at return #1 assert [ign] forall i int :: {diagnostics[i]} 0 <= i && i < len(diagnostics) ==> (diagnostics[i].Severity == severityIgnored) == (old(diagnostics)[i].Severity == severityIgnored || anyHit(ignores, len(ignores), old(diagnostics)[i].Diagnostic))
+
 //@ func filterIgnored$1
 //@   uses     worth_hit
 //@   requires ig != nil
